@@ -436,7 +436,9 @@ func c05free(c *core.Ctx, record bool) {
 		}()
 	}
 	close(start)
-	wg.Wait()
+	if !joinOrDeadlock(c, &wg, "free", "a round of concurrent set calls", map[string]any{"goroutines": ng, "ops_each": nops, "hook_policy": policy}) {
+		return
+	}
 	hooksOff()
 	mode := "lin"
 	if !record {
